@@ -67,6 +67,8 @@ pub struct SimProfile {
     pub idle_tail_ms: u64,
     /// random extra clock advances (ms) even when work is due (only when !prompt)
     pub jitter_max_ms: u64,
+    /// percent of operations submitted with an ack timeout of Duration::MAX
+    pub ack_timeout_max_pct: u64,
 }
 
 impl Default for SimProfile {
@@ -76,7 +78,7 @@ impl Default for SimProfile {
             big_payload_pct: 5, user_props_max: 2, ack_timeout_choices: vec![None], topics: vec!["a/b".into(), "a/c".into(), "d".into(), "e/f/g".into(), "hh/i".into()],
             manual_alias: false, close_permille: 0, forced_close_steps: vec![], max_conns: 4, reconnect_delay_max_ms: 50, write_chunk_max: 0, write_stall_pct: 0,
             flush_error_pct: 0, deliver_chunk_max: 0, connect_timeout_ms: 30_000, stop_permille: 0, stop_with_props: false, mid_reset_permille: 0, max_steps: 5000,
-            horizon_ms: 4_000_000, invalid_op_pct: 0, sub_id_pct: 0, retain_pct: 10, wildcard_pct: 20, shared_pct: 0, idle_tail_ms: 0, jitter_max_ms: 0,
+            horizon_ms: 4_000_000, invalid_op_pct: 0, sub_id_pct: 0, retain_pct: 10, wildcard_pct: 20, shared_pct: 0, idle_tail_ms: 0, jitter_max_ms: 0, ack_timeout_max_pct: 0,
         }
     }
 }
@@ -213,7 +215,8 @@ impl OpGen {
                 OpBody::Unsubscribe(spec)
             }
         };
-        OpSpec { tag, body, ack_timeout_ms, ack_timeout_max: false }
+        let ack_timeout_max = self.rng.chance(p.ack_timeout_max_pct, 100);
+        OpSpec { tag, body, ack_timeout_ms, ack_timeout_max }
     }
 }
 
